@@ -114,6 +114,36 @@ def oracle(ctx, stream, case_lines, rep):
     return first
 
 
+def _build_stamp(repo):
+    """sha1 of everything the harness binary depends on; None when it cannot be determined (then always rebuild)."""
+    h = hashlib.sha1()
+    try:
+        for cmd in (["git", "-C", repo, "rev-parse", "HEAD"], ["git", "-C", repo, "diff", "HEAD"],
+                    ["git", "-C", repo, "ls-files", "--others", "--exclude-standard"]):
+            rc, out, dt = verif.sh(cmd, timeout=120)
+            if rc != 0:
+                return None
+            h.update(out.encode())
+            if cmd[-1] == "--exclude-standard":
+                for rel in out.split("\n"):
+                    p = os.path.join(repo, rel)
+                    if rel.endswith(".go") and os.path.isfile(p):
+                        h.update(open(p, "rb").read())
+        d = os.path.join(verif.HARNESS, "c06")
+        for root in (d, os.path.join(verif.HARNESS, "internal")):
+            for dp, dn, fn in sorted(os.walk(root)):
+                for f in sorted(fn):
+                    if f.endswith(".go"):
+                        h.update(f.encode())
+                        h.update(open(os.path.join(dp, f), "rb").read())
+        for f in ("go.mod",):
+            h.update(open(os.path.join(verif.HARNESS, f), "rb").read())
+        h.update(open(os.path.join(repo, "go.sum"), "rb").read())
+    except OSError:
+        return None
+    return h.hexdigest()
+
+
 def build_harness(ctx):
     """ONE build in the normal case: the harness with -tags "verif c06ext" (needs the newer entry points of
     pilot/pkg/xds/zz_verif_c06.go: delta request/push, typed config dump). Only if that fails the plain harness
@@ -136,14 +166,27 @@ def build_harness(ctx):
             f.write(txt)
         shutil.copyfile(os.path.join(verif.REPO, "go.sum"), os.path.join(ctx.work, "alt.go.sum"))
         extra = ["-modfile=" + alt]
-    if os.path.exists(out):
-        os.remove(out)  # never run a stale binary
+    # never run a stale binary - but do not rebuild an up-to-date one either (the shared Go build cache is trimmed by
+    # concurrent checks; a cold build takes minutes on a loaded machine): the binary carries a stamp of everything it was
+    # built from (HEAD, working-tree diff and untracked files of the repo, the harness sources, go.mod/go.sum)
+    stamp = _build_stamp(os.path.realpath(verif.REPO))
+    if stamp and os.path.exists(out) and os.path.exists(out + ".stamp") and open(out + ".stamp").read() == stamp:
+        ctx.log("harness binary is up to date with %s and harness/c06 (stamp %s): not rebuilt" % (verif.REPO, stamp[:12]))
+        ctx.bin_path = out
+        ctx.harness_ok = True
+        return True
+    for f in (out, out + ".stamp"):
+        if os.path.exists(f):
+            os.remove(f)
     cmd = ["go", "build", "-tags", "verif c06ext"] + extra + ["-o", out, "./" + pkg]
     rc, log, dt = verif.sh(cmd, cwd=verif.HARNESS, env=verif.go_env(), timeout=1500)
     if rc != 0 and ".cache/go-build" in log and "no such file or directory" in log:
         rc, log, dt = verif.sh(cmd, cwd=verif.HARNESS, env=verif.go_env(), timeout=1500)  # build cache trimmed meanwhile
     ctx.log("go build -tags 'verif c06ext' ./c06 rc=%d (%.1fs)" % (rc, dt))
     if rc == 0:
+        if stamp:
+            with open(out + ".stamp", "w") as f:
+                f.write(stamp)
         ctx.bin_path = out
         ctx.harness_ok = True
         return True
@@ -179,6 +222,10 @@ def race(ctx, secs):
     ctx.count("race.f8.incoherent_pairs", inc)
     ctx.count("race.f8.stale_entries_stored", stored)
     ctx.count("race.f8.stale_answers_served", served)
+    me = re.search(r"endpoint_index_ops=(\d+) concurrent_eds_generations=(\d+)", out)
+    if me:
+        ctx.count("race.endpoint_index_ops", int(me.group(1)))
+        ctx.count("race.concurrent_eds_generations", int(me.group(2)))
     ctx.note_case("race f8 %d %d" % (calls // 100000, clears // 1000), True)
     if inc or stored or served:
         ctx.violation("race:f8-incoherent-writer",
@@ -208,6 +255,11 @@ def run(ctx):
         "of a declared dependency reaches Clear/ClearAll (dropCacheForRequest incl. Forced => ClearAll, EndpointIndex."
         "clearCacheForService / deleteServiceInner / GetOrCreateEndpointShard / DeleteShard, PeerAuthentication => EDS ClearAll). "
         "Validated, not proved, by streams keys and writers on the real generators",
+        "Secrets and ConfigMaps are read live by SecretGen while the SDS cache is cleared only by the debounced push of the "
+        "credentials controller's ConfigUpdate: inside that debounce window the cache serves the old certificate although a fresh "
+        "generation yields the new one (the harness waits the window out before it checks)",
+        "formalisation: the declared dependencies may depend on the snapshot (depsOf r S); readers that key on an older snapshot "
+        "than the current one are not covered by cache_invisible",
         "the wall clock is strictly increasing between a writer's Start and any later Clear (Add rejects only token < cache token)",
         "ConfigKey.HashCode is injective on the configs in play; UnixNano of Start is non-negative",
         "KeyComplete (the cache key determines every input generation reads) is validated on the real key functions by the "
@@ -221,7 +273,7 @@ def run(ctx):
         return
     if not build_harness(ctx):
         return
-    ctx.diff_stream("cache", ctx.n(700, 20000), oracle=oracle)
+    ctx.diff_stream("cache", ctx.n(600, 20000), oracle=oracle)
     st = os.path.join(ctx.work, "cache.run.impl.stats")
     if os.path.exists(st):
         d = dict(l.split() for l in ctx.read_lines(st) if len(l.split()) == 2)
@@ -247,7 +299,7 @@ def run(ctx):
         else:
             ctx.tie_broken("oracle-run:cache", log)
     # stream keys: KeyComplete validated on the real generators (warm shared cache vs. from scratch)
-    ctx.diff_stream("keys", ctx.n(40, 400), oracle=oracle)
+    ctx.diff_stream("keys", ctx.n(30, 400), oracle=oracle)
     st = os.path.join(ctx.work, "keys.run.impl.stats")
     if os.path.exists(st):
         for l in ctx.read_lines(st):
@@ -259,7 +311,7 @@ def run(ctx):
                     ctx.count("keys.pairs.%s" % f[0], int(f[1]))
                     ctx.count("keys.pairs_where_generation_differs.%s" % f[0], int(f[2]))
     # stream writers: the coherent-writer hypothesis validated on the real request / push / debug-dump code paths
-    ctx.diff_stream("writers", ctx.n(60, 1000), oracle=oracle)
+    ctx.diff_stream("writers", ctx.n(50, 1000), oracle=oracle)
     # ... and the exhaustive interleaving enumeration on the real cache
     il = os.path.join(ctx.work, "interleave.gen.ops")
     rc, log = ctx.harness("gen", "interleave", ctx.seed, ctx.n(8, 40), il)
@@ -280,7 +332,7 @@ def run(ctx):
     else:
         ctx.tie_broken("oracle-run:interleave", log)
     # goroutine races between the real writers and the real invalidation/publication (F8)
-    race(ctx, ctx.n(6, 45))
+    race(ctx, ctx.n(5, 45))
     if not proved and not ctx.violations:
         pass  # finish() reports the broken proof; the searches above found no failing input
 
@@ -327,10 +379,12 @@ MANIFEST = {
                    "Clear, ClearAll, Flush, evict queue, reverse index; XdsCacheImpl dispatch incl. PeerAuthentication => EDS ClearAll): "
                    "for every sequence of operations by any number of writers the reverse index is complete and leak-free, Clear is "
                    "effective, stale writers are rejected, no stored entry is older than the latest invalidation of one of its "
-                   "dependencies, and under the stated writer discipline and key completeness Get returns what a fresh generation "
-                   "returns for the asking proxy (never_stale, cache_invisible); witnesses show both hypotheses are necessary. The "
-                   "model is tied to /repo on every run by a line-by-line differential on the real cache; the two hypotheses are "
-                   "validated (not proved) on the real key functions and the real cache writers."),
+                   "dependencies, and under the stated writer discipline (Coherent) and the key hypothesis KeyDetermines (equal keys + agreement on "
+                   "the entry's snapshot-dependent DependentConfigs => same generation) Get with the key computed on the current "
+                   "snapshot returns what a fresh generation returns for the asking proxy (never_stale, cache_invisible; stored entries "
+                   "are not claimed fresh, readers keying on an older snapshot are not covered); witnesses show both hypotheses are "
+                   "necessary. The model is tied to /repo on every run by a line-by-line differential on the real cache; the two "
+                   "hypotheses are validated (not proved) on the real key functions and the real cache writers."),
     "level_note": ("Trusted: Lean kernel + {propext, Classical.choice, Quot.sound}; the hand-written model (tied by differential testing "
                    "through model.XdsCache + the read-only hook pilot/pkg/model/zz_verif_c06.go); the harness's order-preserving mapping "
                    "of logical times to the wall clock read by Clear. Validated only, not proved: KeyComplete for EndpointBuilder / "
@@ -339,10 +393,10 @@ MANIFEST = {
                    "pushConnection / debug config dump (stream writers, sequential schedules only, entry points through "
                    "pilot/pkg/xds/zz_verif_c06.go). Goroutine races between the real writers and initPushContext are only explored by a stress "
                    "run with passive probes (statistical). Assumed: strictly increasing wall clock, ConfigKey hash injective. KeyDetermines (equal keys + agreement on DependentConfigs => same generation: key completeness and key versioning; "
-                   "stored entries are not claimed fresh) and in-sync invalidation are hypotheses validated by streams keys/writers only. Six "
+                   "stored entries are not claimed fresh) and in-sync invalidation are hypotheses validated by streams keys/writers only. Eight "
                    "defects found by these streams were fixed in /repo (SDS key vs mesh-default private key provider; debug config "
                    "dump pairing LastPushContext with time.Now(); F8: ProxyUpdate/AdsPushAll pairing the global context with a clock "
-                   "read unsynchronised with cache invalidation + publication; EDS key and RDS key without the proxy's IP family; RDS key without the catch-all cluster)."),
+                   "read unsynchronised with cache invalidation + publication; EDS key and RDS key without the proxy's IP family; RDS key without the catch-all cluster; CDS key without the credential-socket flags; RDS key without proxyHeaders)."),
     "technique": "Lean 4 theorems (induction over arbitrary op sequences) over an exact model of the cache state machine + differential correspondence with the real Go cache + property oracle with exhaustive small-interleaving enumeration + differential validation of the proof's hypotheses on the real generators",
     "design_ref": "DESIGN.md section 5 C06",
 }
